@@ -206,6 +206,10 @@ def noteOp (m : Mon) (label : String) (args : List String) (ok : Bool) (prev : O
       | some p, some id => p.players.any (·.id == id)
       | _, _ => false
     if ok && known then { m with broughtIn := m.broughtIn + (argInt args "chips").getD 0 } else m
+  | "fire.opened" =>
+    -- the blinds in force at the open are those of the table as last observed (set here, at the operation, so that the
+    -- options line may come before or after the observation that follows the open)
+    (match prev with | some p => { m with openBlind := some p.blind } | none => m)
   | "close" => { m with closedSeen := true }
   | "release" => { m with closedSeen := true }
   | "pause" => { m with pausedByUser := true }
@@ -304,7 +308,7 @@ def onObs (m : Mon) (label : String) (ok : Bool) (membership : Bool) (prev : Opt
   -- ---- C01 ledger bookkeeping by diffing the player lists around membership calls
   let m := match prev with
     | some p =>
-      if label == "reserve" || label == "update" || label == "leave" then
+      if label == "reserve" || label == "update" || label == "leave" || label == "burst-end" then
         let gone := p.players.filter (fun q => !(o.players.any (·.id == q.id)))
         let came := o.players.filter (fun q => !(p.players.any (·.id == q.id)))
         -- (re-buys of players already at the table are booked by `noteOp`, from the amount the call named)
@@ -316,7 +320,7 @@ def onObs (m : Mon) (label : String) (ok : Bool) (membership : Bool) (prev : Opt
   -- players vanish or appear only through membership calls
   let v3b := match prev with
     | some p =>
-      if !(label == "reserve" || label == "update" || label == "leave" || label == "new") &&
+      if !(label == "reserve" || label == "update" || label == "leave" || label == "new" || label == "burst-end") &&
          !(p.players.map (·.id) == o.players.map (·.id)) then ["C03.player-list-changed-without-a-membership-call"] else []
     | none => []
   -- ---- per label
